@@ -1152,6 +1152,10 @@ func main() {
 		return out, hasErr
 	}
 
+	// the input limits of the migrator (an expression beyond them is left unmigrated with an error): one case above each
+	corpus = append(corpus, "@(1"+strings.Repeat("+1", 5000)+")", "@("+strings.Repeat("(", 251)+"1"+strings.Repeat(")", 251)+")",
+		"@("+strings.Repeat("-", 251)+"1)")
+
 	if o.Replay != "" {
 		// re-run the recorded failing input (a template with options, or a typed case with variable values)
 		var rj struct {
@@ -1341,6 +1345,30 @@ func main() {
 			} else if _, ok := parseReal(segs[0].S); !ok {
 				failc(res, "parse:flat-sum-exceeds-new-parser-depth", map[string]any{"template": "@(1 + 1 ... 850 times)"}, fmt.Sprintf("1 + 1 + ... with 850 plus signs migrates without error to legacy_add nested 850 deep (%d bytes), which the new parser rejects as too deeply nested", len(out)))
 			}
+		}
+	}
+
+	// operands around the depth limit of the new parser (excellent.MaxParseDepth): precedenceOf cannot parse them, so they
+	// are not parenthesized; either an error is reported or the output must parse
+	for _, shape := range []string{"POWER(%s, 2)", "SUM(%s, 2) * 3", "-(%s)", "2 * (%s)"} {
+		chain := "1" + strings.Repeat(" & 1", 2600)
+		if strings.HasPrefix(shape, "2 *") || strings.HasPrefix(shape, "-") {
+			chain = "contact.n1" + strings.Repeat(" + 1", 900)
+		}
+		e := fmt.Sprintf(shape, chain)
+		res.OracleChecks++
+		out, hasErr, _ := migrateReal("@("+e+")", options{})
+		if hasErr {
+			continue
+		}
+		segs := scanReal(out, flows.RunContextTopLevels)
+		ok := len(segs) == 1 && segs[0].T == 2
+		if ok {
+			_, ok = parseReal(segs[0].S)
+		}
+		if !ok {
+			failc(res, "parse:migrated-expression-beyond-new-parser-depth", map[string]any{"template": "@(" + fmt.Sprintf(shape, "<chain of "+fmt.Sprint(strings.Count(chain, " "))+" tokens>") + ")"},
+				fmt.Sprintf("%s with an operand chain beyond the depth limit of the new parser migrates without error to %d bytes that do not parse (starts %q)", shape, len(out), out[:min(len(out), 40)]))
 		}
 	}
 
